@@ -241,7 +241,7 @@ func c07Tampers() []c07Tamper {
 func init() {
 	mustAccept := &fw.Phase{
 		Name: "grammar-must-accept",
-		N:    fw.Fixed(15000, 300000),
+		N:    fw.Fixed(60000, 300000),
 		Run: func(env *fw.Env, idx int) fw.Result {
 			rnd := env.Rand(idx)
 			a := gen.GrammarRemote(rnd, true)
@@ -279,7 +279,7 @@ func init() {
 	}
 	arbitrary := &fw.Phase{
 		Name: "arbitrary-and-mutated",
-		N:    fw.Fixed(60000, 1500000),
+		N:    fw.Fixed(300000, 1500000),
 		Run: func(env *fw.Env, idx int) fw.Result {
 			rnd := env.Rand(idx)
 			var s string
@@ -299,7 +299,7 @@ func init() {
 	}
 	constructor := &fw.Phase{
 		Name: "constructor-from-parts",
-		N:    fw.Fixed(6000, 120000),
+		N:    fw.Fixed(30000, 120000),
 		Run: func(env *fw.Env, idx int) fw.Result {
 			rnd := env.Rand(idx)
 			tampers := c07Tampers()
